@@ -20,9 +20,9 @@ def group_builder(G, op):
         a, X = sym_elem(G, "a")
         if op == "Ad":
             return ca.Function("f", [a], [ca.densify(X.Ad())])
-        if op == "AdInv":
+        if op in ("AdInv", "AdInvPole"):
             return ca.Function("f", [a], [ca.densify(X.inverse().Ad())])
-        if op == "AdHom":
+        if op in ("AdHom", "AdHomPole"):
             b, Y = sym_elem(G, "b")
             return ca.Function("f", [a, b], [ca.densify((X * Y).Ad())])
     return mk
@@ -44,11 +44,11 @@ def alg_builder(alg, op):
     return mk
 
 
-def compare(run, key, what, out, exp, tvs, scale_min=1.0):
+def compare(run, key, what, out, exp, tvs, scale_min=1.0, tol=TOL):
     with np.errstate(invalid="ignore"):
         d = np.max(np.abs(out - exp), axis=0)
     sc = np.maximum(scale_min, np.max(np.abs(exp), axis=0))
-    bad = ~(d <= TOL * sc)
+    bad = ~(d <= tol * sc)
     if np.any(~bad):
         run.err(float(np.max(d[~bad])))
     for k in np.nonzero(bad)[0]:
@@ -67,12 +67,13 @@ def replay_group_op(run, cache, op, gk, tvs):
     if tuple(f.size_out(0)) != (n, n):
         run.violation(f"{gk}/{op}/shape", f"Ad is {tuple(f.size_out(0))}, not a square operator on the {n}-parameter algebra", {"tv": tvs[0]})
         return
-    k = 2 if op == "AdHom" else 1
+    k = 2 if op in ("AdHom", "AdHomPole") else 1
     cols = [np.array([embed(tv["a"][i]) for tv in tvs]).T for i in range(k)]
     out = batch_call(f, cols)[0]
     run.count("evaluations", len(tvs))
     exp = np.array([rm_to_np(tv["exp"]).flatten(order="F") for tv in tvs]).T
-    compare(run, f"{gk}/{op}/value", f"{op}: differs from the conjugation matrix", out, exp, tvs)
+    compare(run, f"{gk}/{op}/value", f"{op}: differs from the conjugation matrix", out, exp, tvs,
+            tol=(2e-3 if op.endswith("Pole") else TOL))      # documented gimbal band tolerance for results on a pole
 
 
 def replay_alg_op(run, cache, op, kind, tvs):
@@ -130,7 +131,7 @@ def replay_adsum(run, tvs):
 def dispatch(run, cache, tvs_by):
     for key, tvs in sorted(tvs_by.items()):
         op = key[0]
-        if op in ("Ad", "AdInv", "AdHom"):
+        if op in ("Ad", "AdInv", "AdHom", "AdHomPole", "AdInvPole"):
             replay_group_op(run, cache, op, key[1], tvs)
         elif op == "adsum":
             replay_adsum(run, tvs)
@@ -139,7 +140,7 @@ def dispatch(run, cache, tvs_by):
 
 
 def keyof(tv):
-    if tv["op"] in ("Ad", "AdInv", "AdHom"):
+    if tv["op"] in ("Ad", "AdInv", "AdHom", "AdHomPole", "AdInvPole"):
         return (tv["op"], group_key(tv["a"][0]))
     if tv["op"] == "adsum":
         return ("adsum", "")
@@ -205,6 +206,7 @@ def main():
         raise MachineryError("vacuous coverage: no AdExp vectors")
     need = {("Ad", g) for g in ["SO2", "SE2", "R2", "R3", "SO3quat", "SO3mrp", "SO3dcm", "SO3euler", "SE3quat", "SE3mrp", "SE23quat", "SE23mrp"]}
     need |= {("ad", k) for k in ["so2", "se2", "r2", "r3", "so3", "se3", "se23"]}
+    need |= {("AdHomPole", "SO3euler"), ("AdInvPole", "SO3euler")}
     if not need <= set(by):
         raise MachineryError(f"vacuous coverage: never exercised: {need - set(by)}")
     run.assumptions += [
